@@ -1103,7 +1103,18 @@ its closing tag: `Close` marks the output closed, the write times out, every lat
 returns nil. -/
 theorem C10_unjoined_watcher_loses_closing_tag :
     (WdHist.run false WdHist.init [.tx .over, .close, .close]) =
-      (⟨true, false, true, 0, [.el]⟩, [.ok, .failed, .ok]) := by decide
+      (⟨true, false, true, 0, [.el], false⟩, [.ok, .failed, .ok]) := by decide
+
+/-- NOT the code (negation witness, round F): `closeSession` using the close deadline as write
+deadline of the closing tag.  `SetCloseDeadline(t)`, `t` passes, `Close`: the output is marked
+closed, the tag is never written, the next `Close` returns nil — on a healthy transport.  In the
+code (`C10_write_deadline_cleared`, which quantifies over histories WITH close deadlines) the close
+deadline never touches the write side. -/
+theorem C10_close_deadline_as_write_deadline_loses_tag :
+    (WdHist.runBounded WdHist.init [.closeDeadline true, .close, .close]) =
+      (⟨true, false, false, 0, [], true⟩, [.ok, .failed, .ok]) ∧
+    (WdHist.run true WdHist.init [.closeDeadline true, .close, .close]) =
+      (⟨true, false, false, 1, [.close], true⟩, [.ok, .ok, .ok]) := by decide
 
 /-- **probe fact** (real session on a transport that honours the write deadline, deadline calls
 scheduled adversarially: a "past" call is held until somebody clears the deadline): for every
@@ -1123,7 +1134,7 @@ theorem C10_watcher_call_order (s : St) :
   simp [watcher, setDl]
 
 example : (WdHist.run true WdHist.init [.tx .over, .tx .cancelled, .tx .alive, .close, .close]) =
-    (⟨true, true, false, 1, [.el, .close]⟩, [.ok, .failed, .failed, .ok, .ok]) := by decide
+    (⟨true, true, false, 1, [.el, .close], false⟩, [.ok, .failed, .failed, .ok, .ok]) := by decide
 
 /-- **a token reader held across the end of `Serve`, every schedule** of the holder (take a
 reader, read, give it back, take another) and of `Serve`'s shutdown: if the reader tests the
